@@ -713,11 +713,14 @@ class SimNode(Task):
                     blocks = sorted(coinstate.block_by_hash.values(), key=lambda b: b.height)
                     self.store.write_blocks_to_disk(blocks)
             bs.DefaultBlockStore.instance = self.store
+            # the node is put together by the repo's own constructor (NetworkingThread.__init__: LocalPeer, the chain
+            # state it starts with, the peer book); its run() is what step() stands in for.  The peer book comes from
+            # the caller instead of peers.json (instance attribute on the DiskInterface).
+            from skepticoin.networking.threading import NetworkingThread
             di = DiskInterface()
-            self.lp = LocalPeer(disk_interface=di)
-            self.lp.chain_manager.set_coinstate(coinstate)
-            self.lp.network_manager.disconnected_peers = load_peers_from_list(
-                [(h, p, 'OUTGOING') for (h, p) in peers])
+            di.load_peers = lambda: load_peers_from_list([(h, p, 'OUTGOING') for (h, p) in peers])
+            self.thread = NetworkingThread(coinstate, port=(self.port if listen else None), disk_interface=di)
+            self.lp = self.thread.local_peer
             if listen and self.port:
                 self.lp.start_listening(self.port)
             self.lp.running = True
